@@ -7,6 +7,20 @@ CHECKS = {
                 'name (and type) is validated and a same-kind existence test on the same name leads away from the '
                 'backend create call (R-VAL). It does not decide lookup/count/order agreement for runtime histories.',
     },
+    'C10': {
+        'level': 'proof',
+        'technique': 'static analysis: abstract interpretation of FormatVersion on the sign domain (27 vectors, exhaustive) and of '
+                     'checkHeader / FileHDF5 constructor over a boolean abstraction of all file queries (all abstract paths)',
+        'text': 'Proof-level for the stated abstraction: canWrite/canRead and the six operators are evaluated on all 27 sign '
+                'vectors of (library - file) and equal the specification (exact match / same major and minor not newer / '
+                'lexicographic total order, trichotomy); a pre-pass makes the sign domain exhaustive for all int triples '
+                '(components are only ever compared with the same-index component). checkHeader is evaluated on every abstract '
+                'path: right gate per mode, library version as receiver, file version as argument, InvalidFile iff the header '
+                'is unacceptable and throw_error; the constructor passes throw_error = !(flags & Force).',
+        'note': 'Trusted base: clang 14 front end, tools/nixfacts.cc, nixsa/absint.py (the abstract interpreter), the '
+                'specification rows in nixsa/rules/r_ver.py and r_hdr.py. Assumes LocID::hasAttr/getAttr report the attribute '
+                'state faithfully (they are opaque booleans in the abstraction).',
+    },
 }
 
 _NYI = 'check not built yet in this session (planned in DESIGN.md); not claimed until its rule runs and is validated'
